@@ -661,3 +661,63 @@ class check_kernel_equivalence_ext_contract:
 
     def canary(sh, a, ret):
         check("canary: nothing is ever equivalent", not ret)
+
+
+# =====================================================================================
+# the regions kernel ops expand to: signature == the kernel op's own operand / result types, body == the kernel's function
+# =====================================================================================
+EQ_WIDTHS = [(8, 8, 32), (8, 16, 32), (16, 8, 32), (32, 32, 32), (8, 32, 64), (16, 16, 16), (8, 8, 8), (32, 8, 64)]
+
+
+@contract
+class kernel_equivalent_region_contract:
+    """the body a linalg.generic gets when its kernel op is expanded is fed one element of EACH operand: block argument k has
+    the type of operand k of the kernel op (left and right input may differ in width), the last one the result type; a
+    widening mac sign-extends the argument of ITS OWN position to the accumulator type, multiplies, and adds the accumulator"""
+    target = "snaxc.dialects.kernel.MacOp.equivalent_region"
+    shapes = [dict(kind="mac", widths=w) for w in EQ_WIDTHS] + [dict(kind=k, widths=w) for k in ("mul", "add") for w in EQ_WIDTHS if w[0] == w[1] == w[2]]
+    native = False
+    total = True
+    compare_ret = False
+
+    def args(sh, sym):
+        wl, wr, wo = sh["widths"]
+        a, b = mk_ident_value(9201, IntegerType(wl)), mk_ident_value(9202, IntegerType(wr))
+        return [KTYPES[sh["kind"]].create(operands=[a, b], result_types=[IntegerType(wo)])]
+
+    def run(sh, a):
+        return a[0].equivalent_region
+
+    def ensures(sh, a, ret):
+        wl, wr, wo = sh["widths"]
+        blk = ret.block
+        args_ = list(blk.args)
+        check("three block arguments: left element, right element, accumulator / result element", len(args_) == 3)
+        check("argument 0 has the LEFT operand's type, argument 1 the RIGHT operand's type, argument 2 the result type",
+              args_[0].type == IntegerType(wl) and args_[1].type == IntegerType(wr) and args_[2].type == IntegerType(wo))
+        ops = list(blk.ops)
+        y = ops[-1]
+        check("the region ends in a yield of one value", isinstance(y, linalg.YieldOp) and len(y.operands) == 1)
+
+        def ext_of(v, arg):
+            """v is `arg` itself (same width as the result) or the sign extension of `arg` to the result type"""
+            if v is arg:
+                return True
+            o = getattr(v, "owner", None)
+            return isinstance(o, arith.ExtSIOp) and o.operands[0] is arg and v.type == IntegerType(wo)
+
+        top = y.operands[0].owner
+        if sh["kind"] == "mac":
+            check("mac: result = accumulator + product", isinstance(top, arith.AddiOp) and any(x is args_[2] for x in top.operands))
+            muls = [x.owner for x in top.operands if x is not args_[2] and isinstance(getattr(x, "owner", None), arith.MuliOp)]
+            check("mac: the product multiplies (the sign extensions of) argument 0 and argument 1", len(muls) == 1 and (
+                (ext_of(muls[0].operands[0], args_[0]) and ext_of(muls[0].operands[1], args_[1])) or (ext_of(muls[0].operands[0], args_[1]) and ext_of(muls[0].operands[1], args_[0]))))
+            if len(muls) == 1:
+                check("mac: inputs narrower than the accumulator are sign-extended, not used at their own width",
+                      all(x.type == IntegerType(wo) for x in muls[0].operands))
+        else:
+            want = arith.MuliOp if sh["kind"] == "mul" else arith.AddiOp
+            check(f"{sh['kind']}: result = argument 0 (op) argument 1", isinstance(top, want) and top.operands[0] is args_[0] and top.operands[1] is args_[1])
+
+    def canary(sh, a, ret):
+        check("canary: all three arguments have one type", ret.block.args[0].type == ret.block.args[1].type and ret.block.args[1].type == ret.block.args[2].type and sh["widths"][0] == sh["widths"][2])
